@@ -6,6 +6,8 @@ SC-3 objects taken from scratch are initialised before they are read
 SC-4 takes of non-64-byte-multiple size followed by another consumer (alignment slack)
 SC-5 only the scratch carver builds scratch views from raw bytes
 """
+import os
+
 from . import facts, sc
 from .cfg import CFG, Flow
 from .sym import Poly
@@ -500,7 +502,7 @@ def covered(exp, d, m, depth=0):
 def pair_verdict(p, f, comp, corr, how, pairs, exp):
     """returns (verdict, detail): verdict in covered | uncovered | undecided"""
     g = CFG(f)
-    paths = sc.returning_paths(f, g, cap=96)
+    paths = sc.returning_paths(f, g, cap=int(os.environ.get("PZ_SC1_PATHS", "96")))
     if paths is None:
         return "undecided", "too many paths"
     sup = supply_of(p, comp, corr)
@@ -614,6 +616,7 @@ def run(res, tier):
     res.rule("SC-2", "an entry guard `scratch.available() >= X_tmp_bytes(..)` names the operation's own companion (or its family's shared query)")
     res.rule("SC-3", "on every path the first effective use of an object taken from scratch initialises it (zero/fill/store/encode/sampling, or output operand of an overwrite-type operation); never a read or accumulate operand")
     res.rule("SC-4", "a take whose size cannot be a 64-byte multiple (literal ring degree) is not followed by another consumer of the same scratch")
+    res.rule("SC-9", "the number of take_<kind>_slice vectors alive together on a path is at most the integer coefficient of the companion's `scalar * bytes_of(kind)` terms")
     res.rule("SC-8", "mirror-form pairs: every operand whose limb count / precision / length the size of a taken temporary depends on also occurs in the companion's term(s) of the same kind (dependence, not arithmetic)")
     res.rule("SC-7", "at a size-query call site, a usize argument that the caller knows under the name of one of the query's declared parameters (trait declaration names; the caller's own parameters take the names of its trait declaration) sits in that parameter's position")
     res.rule("SC-6", "a temporary created from a layout literal and handed to a nested operation is declared, in the companion, by the nested query evaluated on a literal with equal fields under the parameter correspondence")
@@ -635,6 +638,8 @@ def run(res, tier):
         res.floor("SC-5", "raw carving sites", n5, 5)
         n8 = sc8(p, res, pairs)
         res.floor("SC-8", "direct takes of mirror-form pairs with a same-kind companion term", n8, 40)
+        n9 = sc9(p, res, pairs)
+        res.floor("SC-9", "operations taking vectors of temporaries", n9, 2)
         n7 = sc7(p, res)
         res.floor("SC-7", "size-query call sites with role-named scalar arguments", n7, 20)
         n6 = sc6(p, res, pairs)
@@ -1015,6 +1020,61 @@ def sc8(p, res, pairs):
                             % (f.pretty, kind, ", ".join("`%s`" % pn.get(x, "#%d" % x) for x in missing), kind, comp.name), site=f.where(line))
                 else:
                     res.ok("SC-8", {"op": f.pretty, "take": nm, "kind": kind, "operands": sorted(pn.get(x, "#%d" % x) for x in ps)} if n % 20 == 1 else None)
+    return n
+
+
+# ------------------------------------------------------------------ SC-9
+def sc9(p, res, pairs):
+    """vector temporaries: the number of `take_<kind>_slice` vectors of one kind that are alive together on a path of the operation is at most the
+    number of vectors of that kind the companion pays for (integer coefficient of its `scalar * bytes_of(kind)` terms)"""
+    n = 0
+    for uid in sorted(pairs):
+        f, comp, corr, how = pairs[uid]
+        slices = {}
+        for bi, t in f.calls():
+            nm = (f.callee_def(t) or {}).get("n", "")
+            if nm.startswith("take_") and nm.endswith("_slice") and nm != "take_slice":
+                slices[bi] = nm[len("take_"):-len("_slice")]
+        if not slices:
+            continue
+        n += 1
+        g = CFG(f)
+        paths = sc.returning_paths(f, g, cap=4000)
+        if not paths:
+            res.undec("SC-9", "%s: too many paths" % f.pretty)
+            continue
+        dem = {}
+        for path in paths:
+            cnt = {}
+            for b in path:
+                if b in slices:
+                    cnt[slices[b]] = cnt.get(slices[b], 0) + 1
+            for k, c in cnt.items():
+                dem[k] = max(dem.get(k, 0), c)
+        sup = supply_of(p, comp, corr)
+        if sup is None:
+            res.undec("SC-9", "%s: companion %s not evaluable" % (f.pretty, comp.name))
+            continue
+        have = {}
+        for conds, monos, pol in sup:
+            for m in monos:
+                cnt = {}
+                for term, c in m.items():
+                    kinds = [a for a in term if isinstance(a, tuple) and a[0] == "sz"]
+                    scal = [a for a in term if not (isinstance(a, tuple) and a[0] in ("sz", "q"))]
+                    if len(kinds) == 1 and scal and isinstance(c, int) and c > 0:
+                        cnt[kinds[0][1]] = cnt.get(kinds[0][1], 0) + c
+                for k, c in cnt.items():
+                    have[k] = max(have.get(k, 0), c)
+        for k, c in sorted(dem.items()):
+            if k not in have:
+                res.undec("SC-9", "%s: %d vector(s) of %s; the companion has no `scalar * bytes_of(%s)` term" % (f.pretty, c, k, k))
+            elif c > have[k]:
+                res.bad("SC-9", f.pretty, "vectors-under-declared:%s:%d>%d" % (k, c, have[k]),
+                        "%s can hold %d `take_%s_slice` vectors at once on one path, but its companion %s pays for %d: with every vector in use an exactly sized scratch is too small"
+                        % (f.pretty, c, k, comp.name, have[k]), site=f.where())
+            else:
+                res.ok("SC-9", {"op": f.pretty, "kind": k, "vectors_alive": c, "vectors_declared": have[k]})
     return n
 
 
